@@ -21,6 +21,11 @@ CHECKS = {
     "C07": (PDE_TECH + " and with an 8th-order finite difference of the API's own exact field; out-of-range indices", "Exploration: every gradient the 6 solutions provide, every direction, vs jet gradient (tight) and vs FD of masa_eval_exact_* (loose); 9 invalid indices incl. INT_MIN/INT_MAX must give -1 / NaN at every point.", "2/C07", ""),
     "C09": ("runtime monitor: same workload as C01-C07 judged at the precision tolerance K u e (K=4) against the quad reference; double vs long double at identical inputs; finiteness of every value; -O0 and (thorough) -O2 builds",
             "Exploration: all 31 PDE solutions, both precisions; a double temporary/literal in a long double path shows as ratio 5..2000 against K=4; observed maxima per evaluator recorded in the evidence.", "2/C09", ""),
+    "C08": ("runtime monitor: exact Riemann solver / conjugate-normal closed forms in quad precision as reference, plus reference-free invariant monitors (jump conditions, isentropy, quadrature, proportionality) over parameter and data-vector histories",
+            "Exploration: Sod for Gamma in (1.05,3) in all five regions with front-location probes; cp_normal with data vectors of length 1..50 re-set between evaluations, evaluators in random order, moments k=0..20.", "2/C08",
+            "Sod's states are taken as the library documents them in sod.cpp (rho 1 / 0.125, p 1 / 0.125)."),
+    "C20": ("runtime monitor, reference-free: two handles in one process, shared parameters copied, specialising parameters zeroed and verified, sources of the two solutions compared (oracle supplies only the roundoff scale)",
+            "Exploration: 19 reductions (3D->2D, NS->Euler, transient->steady, unsteady->steady heat, variable->constant properties) x 2 precisions x random parameters/points.", "2/C20", ""),
     "C13": ("runtime monitor: random decorated/near-miss name strings vs independent normaliser; throw observed in-process (exceptions build) and exit status of forked child (exit() build); registry compared before/after",
             "Exploration: thousands of generated strings per run (valid decorations incl. adjacent/leading/trailing separator runs; 9 kinds of near-miss), both precisions, both error-handling builds; oracle is a 3-line normaliser.",
             "2/C13", ""),
